@@ -776,6 +776,13 @@ def c16(tier):
     c.traces_validated += ran
     c.extra["scenarios_in_model"] = len(scen)
     c.samples.append({"scenario": chosen[0]})
+    unenc = [{"label": l, "raw": r} for (l, r) in cli.UNENCODABLE]
+    for sc, (problems, skipped) in zip(unenc, cli.run_scenarios(cli.run_unencodable_scenario, unenc, threads=4)):
+        c.evaluations += 1
+        c.nontrivial += 1
+        for p in problems:
+            c.add_violation({"prop": "C16", "clause": "failing_untouched" if p["clause"] == "malformed_untouched" else "exit_status" if p["clause"] == "malformed_rejected" else "files_mode_result",
+                             "detail": p["detail"], "case": {"label": "unencodable/" + sc["label"]}})
     ran, probs = cli.exit_scenarios(c, tier)
     for sc, p in probs:
         c.add_violation({"prop": "C16", "clause": p["clause"], "detail": p["detail"], "case": {"label": f"exit/{sc['kind']}/{sc['fails']}", "scenario": sc}})
@@ -869,11 +876,32 @@ def c17(tier):
             c.add_violation({"prop": "C17", "clause": p["clause"], "detail": p["detail"], "case": {"label": sc["label"], "text": sc["text"]}})
     c.evaluations += ran
     c.nontrivial += ran
+    # two or three files of one encoding in one invocation on one worker (long first), and results that cannot be encoded
+    pairs = []
+    for i, t in enumerate(texts[:Q(tier, 12, 120)]):
+        label, codec, bom = cli.LEGACY[i % len(cli.LEGACY)]
+        w = cli.SAMPLE_WORDS.get(codec, "x")
+        pairs.append({"label": label, "codec": codec, "bom": list(bom), "long": "\n".join(f"// {w} {k}\nS{k} := '{w}';" for k in range(60)) + "\n" + t, "short": f"x:='{w.split()[0]}';\n"})
+    res = cli.run_scenarios(cli.run_pair_scenario, pairs, threads=6)
+    for sc, (problems, skipped) in zip(pairs, res):
+        if skipped:
+            continue
+        c.evaluations += 1
+        c.nontrivial += 1
+        for p in problems:
+            c.add_violation({"prop": "C17", "clause": p["clause"], "detail": p["detail"], "case": {"label": "pair/" + sc["label"]}})
+    unenc = [{"label": l, "raw": r} for (l, r) in cli.UNENCODABLE]
+    res = cli.run_scenarios(cli.run_unencodable_scenario, unenc, threads=4)
+    for sc, (problems, skipped) in zip(unenc, res):
+        c.evaluations += 1
+        c.nontrivial += 1
+        for p in problems:
+            c.add_violation({"prop": "C17", "clause": p["clause"], "detail": p["detail"], "case": {"label": "unencodable/" + sc["label"]}})
     c.samples.append({"scenario": scen[len(scen) // 2]})
     c.exhaustive = True
     return c.finish(
         rule="CliEnc.tla defines UTF-8 and UTF-16 (LE/BE, surrogate pairs) from their specifications and enumerates texts of <= 2 characters from {a, e-acute, euro, U+3000, an astral emoji} x 7 stored forms (with / without BOM) x 4 `encoding` options (a BOM must win) x damages (odd-length UTF-16, lone surrogate, invalid UTF-8 byte): "
-             "every scenario's input bytes and expected output bytes come from the model and are compared with the file written by the real binary and with its piped stdin->stdout; a text that itself begins with U+FEFF after the real BOM keeps it; plus seed programs with non-ASCII comments / strings / identifiers in 21 encodings incl. legacy code pages, CJK multi-byte encodings and the stateful ISO-2022-JP, a quarter of them 20..400 KiB large (expected = BOM + encode(format(decode)); the written file must be accepted by --mode=check; the piped path must give the same bytes)",
+             "every scenario's input bytes and expected output bytes come from the model and are compared with the file written by the real binary and with its piped stdin->stdout; a text that itself begins with U+FEFF after the real BOM keeps it; plus seed programs with non-ASCII comments / strings / identifiers in 21 encodings incl. legacy code pages, CJK multi-byte encodings and the stateful ISO-2022-JP, a quarter of them 20..400 KiB large (expected = BOM + encode(format(decode)); the written file must be accepted by --mode=check; the piped path must give the same bytes, also when the producer delivers the BOM byte by byte); several files of one encoding in one invocation on one worker (long first); bytes that decode to a character the encoding cannot encode again (the file stays untouched when the run fails)",
         assumptions=["for legacy code pages the codec tables of Python / encoding_rs are trusted; the code under test is pasfmt's use of them"])
 
 
